@@ -715,7 +715,7 @@ theorem nconcat_emb (cfg : NCfg) (P : List Char → POut) (L q R : List Node) (b
   have e1 : L.length + e - (L.length + b) = e - b := by omega
   have hc := fun nf => concatNodes_emb L q R b e nf he
   rw [emb_getElem? L q R b hb, e1]
-  simp only [hc]
+  simp only [hc, Nat.add_lt_add_iff_left]
   cases q[b]? with
   | none => rfl
   | some f =>
